@@ -3,6 +3,7 @@ package harness
 import (
 	"bytes"
 	"fmt"
+	"github.com/lightningnetwork/lnd/keychain"
 	"io"
 	"strings"
 	"sync"
@@ -102,6 +103,19 @@ type symCfg struct {
 	staleAuth              []byte   // auth payload the initiator's ConnData holds from an earlier handshake
 	refuseStatic           bool     // the responder's application refuses the initiator's static key (callback error)
 	failAuth               bool     // the initiator's application rejects the auth payload (callback error)
+	impostor               bool     // KK: the initiator presents the paired client's PUBLIC key without holding its private key
+}
+
+// forgedECDH reports one key pair's public key and computes Diffie-Hellman with another private key: a party that
+// knows the paired client's public key (which is no secret) but not its private key.
+type forgedECDH struct {
+	pub  *btcec.PublicKey
+	priv *btcec.PrivateKey
+}
+
+func (f *forgedECDH) PubKey() *btcec.PublicKey { return f.pub }
+func (f *forgedECDH) ECDH(pub *btcec.PublicKey) ([32]byte, error) {
+	return (&keychain.PrivKeyECDH{PrivKey: f.priv}).ECDH(pub)
 }
 
 type symObs struct {
@@ -151,7 +165,11 @@ func runSym(r *rng, c symCfg, keys [5]*btcec.PrivateKey) symObs {
 			remR = keys[4].PubKey()
 		}
 	}
-	cdI := mailbox.NewConnData(keyECDH(keys[0]), remI, c.pwI, c.staleAuth, nil, func(d []byte) error {
+	var localI keychain.SingleKeyECDH = keyECDH(keys[0])
+	if c.impostor {
+		localI = &forgedECDH{pub: keys[0].PubKey(), priv: keys[4]}
+	}
+	cdI := mailbox.NewConnData(localI, remI, c.pwI, c.staleAuth, nil, func(d []byte) error {
 		o.authSet = true
 		if c.failAuth {
 			return fmt.Errorf("application rejects the auth data")
@@ -261,7 +279,7 @@ func TestGenSym(t *testing.T) {
 		if len(c.tamper) > 0 {
 			tam = strings.Join(c.tamper, ",")
 		}
-		if !c.refuseStatic && !c.failAuth { // the symbolic model has no application callbacks: oracles only
+		if !c.refuseStatic && !c.failAuth && !c.impostor { // the symbolic model has no application callbacks / forged key holders: oracles only
 			o.line("SYM s%d kk=%d mini=%d maxi=%d minr=%d maxr=%d pwi=%s pwr=%s expi=%d expr=%d payload=%s tamper=%s keys=%s | ctor=%d,%d ok=%d,%d ver=%d,%d sentI=%s sentR=%s keysI=%s,%s keysR=%s,%s remI=%s remR=%s authI=%s authset=%d",
 				id, b2i(c.kk), c.minI, c.maxI, c.minR, c.maxR, hx(c.pwI), hx(c.pwR), b2i(c.expI), b2i(c.expR), hx(c.payload), tam, strings.Join(ks, ","),
 				b2i(ob.ctorI), b2i(ob.ctorR), b2i(ob.okI), b2i(ob.okR), ob.verI, ob.verR, hexList(ob.sent[0]), hexList(ob.sent[1]),
@@ -277,7 +295,7 @@ func TestGenSym(t *testing.T) {
 		// ---- direct oracles ----
 		secretsMatch := bytes.Equal(c.pwI, c.pwR)
 		if c.kk {
-			secretsMatch = c.expI && c.expR
+			secretsMatch = c.expI && c.expR && !c.impostor
 		}
 		if !secretsMatch {
 			// C03: mismatch => responder silent, nobody completes
@@ -360,6 +378,12 @@ func TestGenSym(t *testing.T) {
 		}
 	}
 	emit(symCfg{kk: true, minI: 2, maxI: 2, minR: 2, maxR: 2, pwI: base, pwR: base, expI: true, expR: true, staleAuth: []byte("old")}, "stale-auth")
+	// the key-based pattern against a party that presents the paired client's public key but does not hold the
+	// private key: the responder must stay silent (the static-static DH of act one is the proof of possession)
+	for i := 0; i < 4; i++ {
+		emit(symCfg{kk: true, minI: 2, maxI: 2, minR: 2, maxR: 2, pwI: base, pwR: base, expI: true, expR: true,
+			payload: []byte("macaroon-secret"), impostor: true}, "kk-impostor")
+	}
 	// (3) payload sizes incl. the version-0 limit and large ones
 	sizes := []int{0, 1, 497, 498, 499, 600, 65535, 65536, 70000}
 	if thorough() {
